@@ -144,8 +144,12 @@ def install_linalg(it, log):
     la = LinAlg(log)
 
     def cholesky(interp, A, lower=False, **kw):
+        A_in = A
         A = np.array(A, dtype=object)
         log.append(("cholesky", A, lower))
+        if kw.get("overwrite_a") and isinstance(A_in, np.ndarray):
+            # the caller's matrix holds the factor afterwards: its old content is gone (fresh symbols)
+            A_in[...] = np.array([[tm.var("chol_overwritten_%d_%d_%d" % (len(log), i, j)) for j in range(A.shape[1])] for i in range(A.shape[0])], dtype=object)
         if not lower:
             raise Unsupported("cholesky(lower=False) is not part of the contract model")
         return Factor(A)
@@ -155,7 +159,13 @@ def install_linalg(it, log):
         if not isinstance(c, Factor) or lower is not True:
             raise PyRaise(mk_exc_("ValueError", "cho_solve needs the factor returned by cholesky(lower=True)"))
         log.append(("cho_solve", c.A, np.array(B, dtype=object)))
-        return la.solve(c.A, B)
+        x = la.solve(c.A, B)
+        if kw.get("overwrite_b") and isinstance(B, np.ndarray):
+            # LAPACK solves in place: with overwrite_b the caller's right-hand side holds the solution afterwards (scipy documents that b "may" be overwritten;
+            # for a C-contiguous float64 vector it is)
+            xa = np.asarray(x, dtype=object)
+            B[...] = xa.reshape(B.shape)
+        return x
 
     def solve(interp, L, y):
         if isinstance(L, Factor):
